@@ -64,10 +64,13 @@ Proof. induction 1; cbn; auto. Qed.
 Definition Rdeq (d d' : dial) : Prop := d = d'.
 Notation RelL := (Rel Rdeq Rloc err_sim).
 
-Lemma loc_facts : Facts Rdeq Rloc err_sim tok_sim eq.
+Notation anycmp := (fun _ : token => true).
+Lemma loc_facts : Facts Rdeq Rloc err_sim tok_sim eq anycmp.
 Proof.
   constructor.
-  - intros t t' H. exact H.
+  - intros t t' H. left. exact H.
+  - intros e t t' _ H. rewrite H. reflexivity.
+  - reflexivity.
   - intros n d d' s s' _ (Ht & Hi & Hr). unfold peek_nth_token. cbn [fst snd]. split; [|repeat split; tauto].
     cbn. rewrite <- Hi. apply peek_from_sim. apply Forall2_skipn'. exact Ht.
   - intros d d' s s' _ (Ht & Hi & Hp & Htc & Hd). unfold next_token. rewrite <- Hi.
@@ -99,7 +102,7 @@ Lemma loc_skip_all : RelL eq skip_all_semis skip_all_semis.
 Proof.
   intros d d' s s' Hd Hs. unfold skip_all_semis.
   assert (E : length (toks s) = length (toks s')) by (destruct Hs as (Ht & _); eapply Forall2_len; exact Ht).
-  rewrite <- E. apply (rel_skip_semis Rdeq Rloc err_sim tok_sim eq loc_facts); assumption.
+  rewrite <- E. apply (rel_skip_semis Rdeq Rloc err_sim tok_sim eq anycmp loc_facts); assumption.
 Qed.
 
 Lemma loc_next_ns : RelL (opt_rel tok_sim) next_token_no_skip next_token_no_skip.
@@ -127,16 +130,17 @@ Qed.
 
 (** Every pair of programs built alike from the interface is location-blind ... *)
 Theorem loc_invariance A (RA : A -> A -> Prop) (p p' : M A) : IfaceR tok_sim A RA p p' -> RelL RA p p'.
-Proof. apply (ifaceR_sound Rdeq Rloc err_sim tok_sim eq loc_facts loc_skip_all). Qed.
+Proof. apply (ifaceR_sound Rdeq Rloc err_sim tok_sim eq anycmp loc_facts loc_skip_all). Qed.
 
 (** ... and so is every program of the closure language, raw primitives included. *)
 Theorem loc_invariance_prog rr fuel p : RelL (val_rel tok_sim) (denote rr fuel p) (denote rr fuel p).
 Proof.
-  apply (denote_rel Rdeq Rloc err_sim tok_sim eq loc_facts loc_skip_all true).
+  apply (denote_rel Rdeq Rloc err_sim tok_sim eq anycmp loc_facts loc_skip_all true).
   - intros _. apply loc_next_ns.
   - intros _. apply loc_peek_ns.
   - intros _. apply loc_lookahead.
   - reflexivity.
+  - apply prog_cmp_ok_all.
 Qed.
 
 (** [Parser::with_tokens]: the same tokens with dummy locations. *)
@@ -161,7 +165,7 @@ Theorem route_tokens_statements A (RA : A -> A -> Prop) (stmt stmt' : M A) fuel 
      (fst (parse_statements fuel stmt' d (init_state (strip_loc ts) tcf limit))).
 Proof.
   intro Hi.
-  apply (loc_invariance _ _ _ _ (R_parse_statements tok_sim A RA fuel stmt stmt' Hi)
+  apply (loc_invariance _ _ _ _ (R_parse_statements tok_sim (fun _ => true) A RA fuel stmt stmt' Hi)
            d d (init_state ts tcf limit) (init_state (strip_loc ts) tcf limit) eq_refl).
   repeat split; cbn; auto. apply strip_sim.
 Qed.
@@ -283,9 +287,10 @@ Definition dial_eqv (d d' : dial) : Prop :=
   forall n, d_flag d n = d_flag d' n.
 Notation RelD := (Rel dial_eqv eq eq).
 
-Lemma dial_facts : Facts dial_eqv eq eq eq eq.
+Lemma dial_facts : Facts dial_eqv eq eq eq eq anycmp.
 Proof.
   constructor; try (intros; subst; reflexivity); try (intros; subst; tauto).
+  - intros t t' <-. left. reflexivity.
   - intros n d d' s s' _ <-. cbn. auto.
   - intros d d' s s' _ <-. unfold next_token. destruct (next_from _ _). cbn. auto.
   - intros d d' s s' _ <-. unfold prev_token. destruct (prev_idx _ _); cbn; auto.
@@ -299,11 +304,11 @@ Qed.
 Lemma dial_skip_all : RelD eq skip_all_semis skip_all_semis.
 Proof.
   intros d d' s s' Hd <-. unfold skip_all_semis.
-  apply (rel_skip_semis dial_eqv eq eq eq eq dial_facts); auto.
+  apply (rel_skip_semis dial_eqv eq eq eq eq anycmp dial_facts); auto.
 Qed.
 
 Theorem dial_independence A (RA : A -> A -> Prop) (p p' : M A) : IfaceR eq A RA p p' -> RelD RA p p'.
-Proof. apply (ifaceR_sound dial_eqv eq eq eq eq dial_facts dial_skip_all). Qed.
+Proof. apply (ifaceR_sound dial_eqv eq eq eq eq anycmp dial_facts dial_skip_all). Qed.
 
 Lemma val_rel_eq : forall v v', val_rel eq v v' -> v = v'.
 Proof.
@@ -321,7 +326,7 @@ Theorem dial_independence_prog rr fuel p d d' s :
 Proof.
   intro Hd.
   assert (H : RelD (val_rel eq) (denote rr fuel p) (denote rr fuel p)).
-  { apply (denote_rel dial_eqv eq eq eq eq dial_facts dial_skip_all true); try reflexivity.
+  { apply (denote_rel dial_eqv eq eq eq eq anycmp dial_facts dial_skip_all true); try reflexivity; try apply prog_cmp_ok_all.
     - intros _ d0 d0' s0 s0' _ <-. cbn. split; [|reflexivity]. destruct (nth_error _ _); cbn; auto.
     - intros _ n d0 d0' s0 s0' _ <-. cbn. auto.
     - intros _ B RB p0 p0' q q' Hp Hq d0 d0' s0 s0' Hd0 <-. unfold lookahead. destruct (existsb _ _); [apply Hp|apply Hq]; auto. }
